@@ -24,7 +24,12 @@ def tokenizer_table(prog):
         if b is None:
             continue
         S = A.summary(fid)
+        cseen = set()
         for ev in S.events:
+            if ev[0] == "call" and ev[3] == fid and (ev[1], ev[6]) in cseen:
+                continue
+            if ev[0] == "call" and ev[3] == fid:
+                cseen.add((ev[1], ev[6]))
             if ev[0] == "call" and ev[3] == fid and re.search(r"(tokenizer::tokenize|a2ml::tokenize_a2ml|a2ml::tokenize_tag|a2ml::tokenize_number|a2ml::tokenize_keyword_ident|a2ml::tokenize_include|a2ml::make_errtxt|loader::load|loader::make_include_filename|Vec::append|Vec::extend_from_slice|Vec::extend|Vec::push|String::push_str)$", ev[1]):
                 rows.append(["call " + ev[1].split("::")[-1] + ("(%s)" % guards.fmt_terms(ev[2][0]) if re.search(r"(append|extend_from_slice|extend|push|push_str)$", ev[1]) else ""), sorted(guards.guard_set(b, S, ev[6]))])
         rows.sort(key=lambda r: (r[0], r[1]))
